@@ -464,8 +464,8 @@ static void origin_take(int o)
     g->valid = 1;
 }
 
-#define COND_MAX 1.0e4
-#define TOL_REL  1.0e-9
+#define COND_MAX 1.0e3
+#define TOL_REL  1.0e-8
 
 /* dense, perfectly conditioned drive matrix (DFT with fixed row phases) */
 static void fixed_drive(int n, double complex *drive)
